@@ -12,22 +12,26 @@
   frame property of the bash model (a function's lines assign only its own prefixed names, globals, the return
   registers and its loop flags - so a caller's locals and temporaries survive any call).
 
-  Not in the fragment (left to the execution oracle of the check): recursion, slices, `len`/string indexing,
+  Not in the fragment (left to the execution oracle of the check; TypeShell itself has no recursion - a function
+  can be called only after its definition is complete - so define-before-use is no restriction): slices, `len`/string indexing,
   command calls, `switch`, `for range`.
 -/
 import TshVerif.Lemmas.Sem2Top
 import TshVerif.Lemmas.Sem2Det
+import TshVerif.Lemmas.Sem2Helpers
 namespace Tsh.C02
 open Tsh Tsh.Tr Tsh.Bash Tsh.Sem2
 
-/-- **The bash script means what the program means, functions included.**  `k` is the exit status (0: the program
-    ran to its end; `panic` ends it with 1), `out` the printed lines.  `fuel` is universally quantified: every
-    terminating run of the source semantics, no bound on program size, call depth or iterations. -/
+/-- **The bash script means what the program means - functions, slices and strings included.**  `k` is the exit
+    status (0: the program ran to its end; `panic` ends it with 1), `out` the printed lines.  The script is the
+    shebang, the definitions `hcmds` of the helper routines it needs and the translated program `cmds`.  `fuel` is
+    universally quantified: every terminating run of the source semantics, no bound on program size, call depth,
+    iterations, number or length of slices. -/
 theorem bash_preserves_semantics_with_functions (p : Program) (hf : Src.fragP [] p = true) (ls : List Line)
     (hc : compile p = .ok ls) :
-    ∃ cmds : List Cmd, ls = .shebang :: flats cmds ∧
+    ∃ hcmds cmds : List Cmd, ls = .shebang :: (flats hcmds ++ flats cmds) ∧
       ∀ fuel k out, Src.runProgram fuel p = some (k, out) →
-        ∃ (o' : Out) (m' : Cfg), ExecCmds cmds Cfg.init o' m' ∧ ((o' = .normal ∧ k = 0) ∨ o' = .exit k) ∧ m'.out = out := by
+        ∃ (o' : Out) (m' : Cfg), ExecCmds (hcmds ++ cmds) Cfg.init o' m' ∧ ((o' = .normal ∧ k = 0) ∨ o' = .exit k) ∧ m'.out = out := by
   unfold compile at hc
   split at hc
   · rename_i u s hrun
@@ -43,28 +47,36 @@ theorem bash_preserves_semantics_with_functions (p : Program) (hf : Src.fragP []
       have : (pure () : BM Unit) s2 = .ok (u, s) := h3
       exact (pure_ok this).2
     have h01 : s1.funcs = [] := by rw [e1]
-    obtain ⟨cmds, n, m, fc, e2, sim⟩ := prog_semF p [] s1 s2 hf trivial (fun e he => by cases he) List.nodup_nil h01
+    obtain ⟨cmds, n, m, fc, rq, e2, sim⟩ := prog_semF p [] s1 s2 hf trivial (fun e he => by cases he) List.nodup_nil h01
       (fun e he => by cases he) h2
-    refine ⟨cmds, ?_, ?_⟩
-    · rw [← hc, e3, e2, e1]
-      simp [dumpLines, adv3, helperLines]
+    refine ⟨helperCmds s2, cmds, ?_, ?_⟩
+    · rw [← hc, e3, flats_helperCmds]
+      have hsc : s2.startCode = [.shebang] := by rw [e2, e1]; rfl
+      have hcd : s2.code = (flats cmds).reverse := by rw [e2, e1]; simp [adv3, reqSt]
+      simp [dumpLines, hsc, hcd]
     · intro fuel k out hs
       unfold Src.runProgram at hs
       have hinit : TopInv [] Src.SCfg.init Cfg.init :=
-        ⟨⟨rfl, rfl, fun x v hx => by simp [Src.SCfg.init] at hx, fun hin => by cases hin⟩, rfl, rfl⟩
+        ⟨⟨rfl, rfl, fun x v hx => by simp [Src.SCfg.init] at hx, (fun hin => by cases hin), ⟨rfl, fun _ => rfl, fun _ _ => rfl⟩⟩, rfl, rfl⟩
+      have pre := exec_helperCmds s2 Cfg.init
+      have hstart : ({ Cfg.init with funs := helperFuns s2 ++ Cfg.init.funs } : Cfg) = addH (helperFuns s2) Cfg.init := by
+        simp [addH, Cfg.init]
+      rw [hstart] at pre
+      have fin : ∀ {o' m'}, ExecCmds cmds Cfg.init o' m' → ExecCmds (helperCmds s2 ++ cmds) Cfg.init o' (addH (helperFuns s2) m') :=
+        fun ex => execCmds_append pre (execCmds_addH (helperFuns s2) ex)
       split at hs
       · rename_i c' hs'
         simp only [Option.some.injEq, Prod.mk.injEq] at hs
         obtain ⟨rfl, rfl⟩ := hs
         obtain ⟨m', o', ex, hor, hout⟩ := sim fuel Src.SCfg.init .normal c' hs' Cfg.init hinit
         have : o' = .normal := (outRel_normal hor).mpr rfl
-        exact ⟨o', m', ex, Or.inl ⟨this, rfl⟩, hout.symm⟩
+        exact ⟨o', _, fin ex, Or.inl ⟨this, rfl⟩, hout.symm⟩
       · rename_i k' c' hs'
         simp only [Option.some.injEq, Prod.mk.injEq] at hs
         obtain ⟨rfl, rfl⟩ := hs
         obtain ⟨m', o', ex, hor, hout⟩ := sim fuel Src.SCfg.init (.exit k') c' hs' Cfg.init hinit
         have : o' = .exit k' := by cases o' <;> simp [OutRel] at hor ⊢; exact hor.symm
-        exact ⟨o', m', ex, Or.inr this, hout.symm⟩
+        exact ⟨o', _, fin ex, Or.inr this, hout.symm⟩
       · simp at hs
   · simp at hc
   · simp at hc
@@ -77,8 +89,8 @@ theorem bash_model_with_functions_outcome_unique (p : Program) (hf : Src.fragP [
     ∃ cmds : List Cmd, ls = .shebang :: flats cmds ∧
       ∀ f1 f2 k out o2 c2, Src.runProgram f1 p = some (k, out) → execCmds f2 cmds Cfg.init = some (o2, c2) →
         ((o2 = .normal ∧ k = 0) ∨ o2 = .exit k) ∧ out = c2.out := by
-  obtain ⟨cmds, e, sem⟩ := bash_preserves_semantics_with_functions p hf ls hc
-  refine ⟨cmds, e, ?_⟩
+  obtain ⟨hcmds, cmds, e, sem⟩ := bash_preserves_semantics_with_functions p hf ls hc
+  refine ⟨hcmds ++ cmds, by rw [e, flats_append], ?_⟩
   intro f1 f2 k out o2 c2 h1 h2
   obtain ⟨o', m', ex, ho, eo⟩ := sem f1 k out h1
   obtain ⟨e1, e2⟩ := exec_agrees h2 ex
